@@ -196,4 +196,11 @@ VARIANTS = [
     ("C07", "reamber/o2jam/O2JMap.py", "while bpm_ix + 1 < len(bpms) and", "while bpm_ix < len(bpms) and", B, "C07.R10"),
     ("C07", "reamber/o2jam/O2JMap.py", "        for bpm in bpms[bpm_ix + 1 :]:", "        for bpm in bpms[:0]:", B, "C07.R10"),
     ("C07", "reamber/o2jam/O2JMap.py", "        bpm_ix = -1", "        bpm_ix = 0", B, "C07.R10"),
+    ("C06", "reamber/quaver/QuaMap.py", 'm._read_svs(file.pop("SliderVelocities", None) or [])', 'm._read_svs(file.pop("SliderVelocities"))', B, "C06.R5"),
+    ("C06", "reamber/quaver/QuaMap.py", 'm._read_svs(file.pop("SliderVelocities", None) or [])', 'm._read_svs(file.pop("SliderVelocities", []))', T, ""),
+    ("C06", "reamber/quaver/lists/notes/QuaHitList.py", 'df = df.reindex(["offset", "column", "keysounds"], axis=1)', 'df = df.reindex(df.columns.union(["offset", "column", "keysounds"], sort=False), axis=1)', B, "C06.R10"),
+    ("C06", "reamber/quaver/QuaMapMeta.py", "initial_scroll_velocity: float = 1.0", 'initial_scroll_velocity: float = ""', B, "C06.R12"),
+    ("C06", "reamber/quaver/QuaMapMeta.py", "initial_scroll_velocity: float = 1.0", "initial_scroll_velocity: float = 1", T, ""),
+    ("C06", "reamber/quaver/QuaMapMeta.py", 'str(d.get("Tags") or "").split(" ")', 'd.get("Tags", "").split(" ")', B, "C06.R11"),
+    ("C06", "reamber/quaver/QuaMapMeta.py", 'str(d.get("Tags") or "").split(" ")', 'str(d.get("Tags")).split(" ")', B, "C06.R11"),
 ]
